@@ -39,6 +39,7 @@ type Harness struct {
 	MaxPaths   int
 	NoF2ICheck bool
 	NoMono     bool
+	NoTimers   bool
 	Conc       bool
 	Workers    int
 	RunTier    string
@@ -130,6 +131,8 @@ func discoverHarnesses(cfg *Config) ([]*Harness, map[string][]byte, error) {
 						h.NoMono = v == "1"
 					case "conc":
 						h.Conc = v == "1"
+					case "timers":
+						h.NoTimers = v == "off"
 					case "maxpaths":
 						h.MaxPaths, _ = strconv.Atoi(v)
 					}
@@ -289,10 +292,6 @@ func runHarness(cfg *Config, ld *Loaded, h *Harness, known []*Finding) (res *Har
 		defer f.Close()
 		solver.Log = f
 	}
-	if h.Conc {
-		runConcHarness(cfg, ld, h, fn, solver, res, known)
-		return
-	}
 	// parallel exploration of the path worklist: one solver process per worker
 	workers := h.Workers
 	if workers < 1 {
@@ -392,6 +391,7 @@ func (r *HarnessResult) merge(p *HarnessResult) {
 	r.FpOps += p.FpOps
 	r.Blocked += p.Blocked
 	r.UnwindCuts += p.UnwindCuts
+	r.FeasibleCombos += p.FeasibleCombos
 	r.ConcCombos += p.ConcCombos
 	r.Events += p.Events
 	r.Candidates = append(r.Candidates, p.Candidates...)
@@ -466,6 +466,18 @@ func runPath(cfg *Config, ld *Loaded, h *Harness, fn *ssa.Function, solver *Solv
 				if e.reason == "assumption infeasible" {
 					res.PathsPruned++
 				}
+				if ex.conc != nil && ex.conc.final != nil && ex.conc.mode == "final" && strings.Contains(e.reason, "violated on every input") {
+					// the quiescent phase ended at a definitely-false assertion: it is still an
+					// obligation of the composed system
+					func() {
+						defer func() {
+							if r2 := recover(); r2 != nil {
+								res.Errors = append(res.Errors, fmt.Sprintf("%s: engine panic in composition: %v", h.Name, r2))
+							}
+						}()
+						ex.composeAndCheck()
+					}()
+				}
 			case goBlocked:
 				res.Blocked++
 				if h.Blocked == "violation" {
@@ -479,6 +491,10 @@ func runPath(cfg *Config, ld *Loaded, h *Harness, fn *ssa.Function, solver *Solv
 		}
 	}()
 	ex.callFunction(fn, nil, nil)
+	if ex.conc != nil && ex.conc.final != nil {
+		ex.composeAndCheck()
+		return
+	}
 	// end-of-path side conditions
 	ex.endOfPathChecks()
 	if len(res.Samples) < 3 {
